@@ -15,7 +15,7 @@ import z3
 
 from . import api
 from .ops import OpsMixin, _find_in_mro
-from .values import (LazyStr, NativeTouch, Opaque, PathAbort, SolverUnknown, Sym, SymBool, SymBV, SymBytes,
+from .values import (SymDT, SymTD, LazyStr, NativeTouch, Opaque, PathAbort, SolverUnknown, Sym, SymBool, SymBV, SymBytes,
                      SymFloat, SymInt, SymStr, Unsupported, as_bytes_list, chars, deep_sym, is_sym, mkbool, mkbv,
                      mkbytes, mkint, mkstr, zbool, zint)
 
@@ -37,7 +37,7 @@ class Violation(BaseException):
     """raised internally to unwind a path whose assertion cannot hold"""
 
 
-INTERNAL = (_Return, _Break, _Continue, PathAbort, Unsupported, SolverUnknown, Violation)
+INTERNAL = (_Return, _Break, _Continue, PathAbort, Unsupported, SolverUnknown, Violation, z3.Z3Exception, NativeTouch)
 INTERP_PREFIXES = ("numbers_parser", "specs")
 
 
@@ -69,6 +69,8 @@ class Engine(OpsMixin):
         self.pc = []
         self.symdicts = {}
         self.divmod_cache = {}
+        self.fp_origin = {}
+        self.fp_pack_cache = {}
         self.fresh_n = 0
         self.nondet_n = {}
         self.inputs = {}       # name -> (kind, sym/terms) for model extraction
@@ -93,7 +95,7 @@ class Engine(OpsMixin):
                 continue
             except Violation as v:
                 outcome = ("violation", v.args[0])
-            except (Unsupported, SolverUnknown, _Return, _Break, _Continue):
+            except (Unsupported, SolverUnknown, _Return, _Break, _Continue, z3.Z3Exception):
                 raise
             except RecursionError:
                 raise Unsupported("recursion limit")
@@ -173,8 +175,12 @@ class Engine(OpsMixin):
         r = self.check(t)
         if r == z3.unsat:
             raise PathAbort()
+        try:
+            self.model = self.solver.model()
+        except z3.Z3Exception:
+            print("DEBUG assume: r=", r, "cond=", str(t)[:300], flush=True)
+            self.model = None
         self._add(t)
-        self.model = self.solver.model()
 
     def decide(self, cond):
         """Branch on a z3 Bool; returns a python bool. Forks when both sides are feasible."""
@@ -1222,6 +1228,12 @@ class Engine(OpsMixin):
                 return IntMethod(obj, name)
             if isinstance(obj, SymFloat):
                 return FloatMethod(obj, name)
+            if isinstance(obj, SymDT):
+                from . import dtmodels
+                return dtmodels.dt_attr(self, obj, name)
+            if isinstance(obj, SymTD):
+                from . import dtmodels
+                return dtmodels.td_attr(self, obj, name)
             raise AttributeError(f"{type(obj).__name__} has no attribute {name}")
         if isinstance(obj, SuperProxy):
             return obj.resolve(self, name)
